@@ -17,7 +17,14 @@ type PanicInfo struct {
 	Stack []string `json:"stack,omitempty"`
 }
 
-func (p *PanicInfo) Sig() string { return "panic:" + p.Class + "@" + p.Func }
+// Sig is the violation signature of a panic. A panic without any library frame on its stack is
+// the harness's own doing and is reported as infrastructure trouble, never as a violation.
+func (p *PanicInfo) Sig() string {
+	if p.Func == "<outside-library>" {
+		return "infra:harness-panic:" + p.Class
+	}
+	return "panic:" + p.Class + "@" + p.Func
+}
 
 // Guard runs f and converts a panic into a PanicInfo.
 func Guard(f func()) (pi *PanicInfo) {
